@@ -22,7 +22,7 @@ ASSUMPTIONS = ['oracle: atan2(|a x b|, a.b) separation and tangent-basis positio
 MIN_REACH = {'angle_tools:gcd': 1, 'angle_tools:bear': 1, 'angle_tools:translate': 1,
              'angle_tools:dec2dms': 1, 'angle_tools:dec2hms': 1, 'angle_tools:dec2dec': 1}
 MIN_COUNTERS = {'contract_gcd': 10, 'contract_bear': 10, 'contract_translate': 10, 'contract_dms': 10,
-                'contract_hms': 10}
+                'contract_hms': 10, 'parse_padded': 1000}
 
 TOL = 1e-9          # degrees, from the statement
 _OBS = None         # the Obs the installed contracts record into
@@ -415,6 +415,21 @@ def _carry_values(which):
     return [float(x) for x in xs]
 
 
+def _padded(o, parse, s, bare, which):
+    """the string as it sits in a fixed-width / right-aligned column or a whitespace separated file: surrounding blanks and
+    blank separators must not change the parsed value (the parser splits on whitespace) - in particular not its sign"""
+    for name, t in (('lead1', ' ' + s), ('lead4', '    ' + s), ('tab', '\t' + s), ('trail', s + '  '), ('both', '  ' + s + ' \n'),
+                    ('blanks', s.replace(':', ' ')), ('lead_blanks', '  ' + s.replace(':', ' '))):
+        try:
+            v = parse(t)
+        except Exception as e:
+            o.violate('%s_padded_parse_raises' % which, {'string': t, 'spelling': name, 'exc': repr(e)})
+            continue
+        o.count('parse_padded')
+        if v != bare:
+            o.violate('%s_padded_parse_differs' % which, {'string': t, 'spelling': name, 'parsed': v, 'bare_string_parsed': bare})
+
+
 def _drive_sexa(at, o, xs, which):
     for x in xs:
         if which == 'dms':
@@ -427,6 +442,7 @@ def _drive_sexa(at, o, xs, which):
                     o.violate('dms_parse_raises', {'x': repr(x), 'string': s, 'exc': repr(e)})
                     continue
                 o.count('parse_dms')
+                _padded(o, at.dec2dec, s, back, 'dms')
                 err = abs(back - x) * 3600
                 o.worst('aegean_parse_dms_arcsec', err)
                 if err > 0.005 + 1e-7:      # float slack of the parser's own sum of three terms
@@ -441,6 +457,7 @@ def _drive_sexa(at, o, xs, which):
                     o.violate('hms_parse_raises', {'x': repr(x), 'string': s, 'exc': repr(e)})
                     continue
                 o.count('parse_hms')
+                _padded(o, at.ra2dec, s, back, 'hms')
                 err = abs(sphere.angdiff(back, x)) * 240
                 o.worst('aegean_parse_hms_sec', float(err))
                 if err > 0.005 + 1e-7:
